@@ -11,7 +11,7 @@ EXPLANATION = (
     "the enumerated functions and only write_request writes through it; each TCP server's connection writer is a local of "
     "the one connection function and is never moved or shared; on WebSocket a frame is one Binary message whose payload is "
     "the whole frame (to_vec / into_wire_bytes / frame_outbound) and server sinks are written only by writer_task/proxy. "
-    "(no-write-after-failed-write) for every frame write in a connection function, every path to any further write on that "
+    "(whole-writes-only) the connection functions and frame writers use only complete-write primitives (write_all / flush), never write / write_vectored / write_buf whose short counts would need remainder accounting. (no-write-after-failed-write) for every frame write in a connection function, every path to any further write on that "
     "connection crosses the success edge of a test of that write's own result (including an enclosing timeout's result): a "
     "discarded result (`.ok()`, `let _ =`) is a violation. (write-failure-must-poison) in the clients, where the connection "
     "object outlives a failed call, every failure path of a frame write reaches the return only with the connection "
@@ -266,6 +266,30 @@ def run(facts, R):
     for hp in sorted(used_helpers):
         R.note("write helper of a connection function analysed with the same rule: " + hp)
         analyse_conn(facts, R, hp, "helper", facts.body(hp).kind == "coroutine", floor=1)
+
+    # ---- whole-writes-only: a frame is put on a connection only through complete-write primitives (write_all, flush and
+    # the frame writers built on them); write / write_vectored / write_buf may write a prefix and return Ok(n), so using
+    # them for frame bytes needs exact remainder accounting, which the rules cannot follow: reported
+    PARTIAL = ("write", "write_vectored", "write_buf", "poll_write", "poll_write_vectored", "try_write", "try_write_vectored")
+    scope = set(p for p, _, _ in CONN) | set(WRITE_HELPERS.values())
+    for pth, bb_ in facts.bodies.items():
+        if pth.startswith(("io::", "async_io::")) and ("write_message" in pth):
+            scope.add(pth)
+    n_scope = 0
+    for pth in sorted(scope):
+        if pth not in facts.bodies:
+            continue
+        n_scope += 1
+        bb_ = facts.body(pth)
+        for i, t in bb_.calls():
+            c = t["callee"]
+            tr = c.get("trait") or ""
+            if c["name"] in PARTIAL and tr in ("std::io::Write", "tokio::io::AsyncWriteExt", "tokio::io::AsyncWrite"):
+                R.bad("whole-writes-only", pth, c["name"] + "@" + str(i),
+                      "frame bytes are written with `%s`, which may accept only a prefix: the rest of the frame depends on remainder arithmetic the checker cannot "
+                      "follow (a short write inside the header/query region tears the frame while the function still returns Ok)" % c["name"], t.get("span"))
+    R.floor("whole-writes-only", n_scope, 6, "frame-writing functions scanned for partial-write primitives")
+    R.ok("whole-writes-only", "<crate>", "no partial-write primitive in the frame-writing functions", None, "%d functions" % n_scope)
 
     # ---- one-lock-per-frame: clients
     for path, role, is_async in CONN:
